@@ -44,7 +44,7 @@ def make(ck, rnd, n):
     for t in range(n):
         lname = rnd.choice(list(MENU))
         tlib = L[lname]
-        mod = hdl.pruning_module(rnd, lname, tlib) if rnd.random() < 0.15 else hdl.random_hdl_module(rnd, tlib, MENU[lname])
+        mod = hdl.pruning_module(rnd, lname, tlib) if rnd.random() < 0.2 else hdl.random_hdl_module(rnd, tlib, MENU[lname])
         used = sorted({k for k, _, _ in mod['insts']})
         sk = nets.seq_kinds_of(tlib, used)
         truth = hdl.build(mod, tlib)
